@@ -432,6 +432,17 @@ func bumpFamily() []Pat {
 	return finalize("BUMP", trees, map[string]bool{}, false)
 }
 
+// bumpFamilyC01: the members of BUMP that lie in the fragment of the reference model
+func bumpFamilyC01() []Pat {
+	var out []Pat
+	for _, p := range bumpFamily() {
+		if inC01Fragment(p.AST) {
+			out = append(out, p)
+		}
+	}
+	return out
+}
+
 // ---- LOOP ----
 
 func loopFamily(nullableBodies bool) []Pat {
@@ -631,6 +642,41 @@ func look3Family() []Pat {
 		}
 	}
 	return finalize("LOOK3", keep, map[string]bool{}, false)
+}
+
+// ---- ALTREP: alternations whose branches start with the same single-character / class repeater but differ in its
+// bounds (the shape that prefix factoring of repeaters must leave alone unless minimum AND maximum agree) ----
+
+func altRepFamily() []Pat {
+	atoms := []*Node{set(false, 'a', 'b'), set(true, 'c'), anyc(), lit('a')}
+	qs := []quant{{2, 2, false}, {2, 3, false}, {2, -1, false}, {1, 2, false}, {1, 1, false}, {2, 3, true}, {0, 1, false}, {1, -1, false}}
+	tails := []*Node{lit('b'), lit('c'), lit('a')}
+	var trees []*Node
+	for _, at := range atoms {
+		for _, q1 := range qs {
+			for _, q2 := range qs {
+				if q1 == q2 {
+					continue
+				}
+				mk := func(q quant) *Node {
+					if q.min == 1 && q.max == 1 {
+						return at
+					}
+					return rep(at, q.min, q.max, q.lazy)
+				}
+				for _, t1 := range tails {
+					for _, t2 := range tails {
+						if t1 == t2 {
+							continue
+						}
+						a := alt(cat(mk(q1), t1), cat(mk(q2), t2))
+						trees = append(trees, a, cat(asrt('^'), &Node{K: KGroup, Kids: []*Node{a}}, asrt('$')), capg(a))
+					}
+				}
+			}
+		}
+	}
+	return finalize("ALTREP", trees, map[string]bool{}, false)
 }
 
 // ---- LOOPALT: counted group loops (greedy and lazy, minimum >= 2 included) whose body is an alternation of
